@@ -36,7 +36,7 @@ RULE = ("hierarchy shapes: every multiset of <= 4 layers over {PROTOCOL, FUNCTIO
         "equal-priority clashes are repaired by exclusion / local override / removal, except in "
         "about a third of the clashing databases where exactly one is kept.  Distinct = distinct description; "
         "non-trivial = at least one inherited, excluded or clashing object")
-MIN_EVALS = {"quick": 60000, "thorough": 2000000}
+MIN_EVALS = {"quick": 500000, "thorough": 20000000}
 ASSUMPTIONS = [
     "parent priority ECU-SHARED-DATA > ECU-VARIANT > BASE-VARIANT > FUNCTIONAL-GROUP > PROTOCOL, "
     "taken from the direct parent an object is inherited through",
@@ -62,35 +62,58 @@ ALPHABET: Dict[str, List[str]] = {
     "eopdu_field": ["eopf_a", "eopf_b"], "mux": ["mux_a", "mux_b"], "env_data": ["ed_a", "ed_b"],
     "env_data_desc": ["edd_a", "edd_b"],
 }
-CATS_USED = [c for c in lg.DEFAULT_CATS]
-CATS = {c: lg.CATS[c] for c in CATS_USED}
-PRIMARY_NS = sorted(set(ns for ns, _ in CATS.values()))
+ALPHABET["variable_group"] = ALPHA3
+
+# The category alphabet is fixed except for VARIABLE-GROUPs: the tree under test may be unable
+# to load that element at all (reported separately by probe_variable_groups()); the category
+# only takes part in the generated hierarchies when the probe loads.
+CATS_USED: List[str] = []
+CATS: Dict[str, Tuple[str, Optional[str]]] = {}
+PRIMARY_NS: List[str] = []
+VIEW_NS: Dict[str, Tuple[str, Optional[Set[str]]]] = {}
+VIEWS_USED: List[str] = []
 NOT_APPLICABLE = {"PROTOCOL": {"diag_variables", "variable_groups"}}
+_CONFIGURED: Dict[str, Any] = {}
+
+
+def probe_hier() -> Dict[str, Any]:
+    h = lg.shape_to_hier([("ECU-SHARED-DATA", []), ("BASE-VARIANT", [0])])
+    h["layers"][0]["objects"].append({"cat": "variable_group", "name": "a", "twin": False})
+    return h
+
+
+def probe_variable_groups() -> Optional[BaseException]:
+    return _try_load(probe_hier())[1]
+
+
+def configure(with_vg: Optional[bool] = None) -> None:
+    if _CONFIGURED and with_vg is None:
+        return
+    if with_vg is None:
+        with_vg = probe_variable_groups() is None
+    _CONFIGURED["with_vg"] = with_vg
+    CATS_USED[:] = [c for c in lg.CATS if with_vg or c not in lg.UNLOADABLE_CATS]
+    CATS.clear()
+    CATS.update({c: lg.CATS[c] for c in CATS_USED})
+    PRIMARY_NS[:] = sorted(set(ns for ns, _ in CATS.values()))
+    VIEW_NS.clear()
+    VIEW_NS.update({"services": ("diag_comms", {"service"}),
+                    "diag_services": ("diag_comms", {"service"}),
+                    "single_ecu_jobs": ("diag_comms", {"job"})})
+    for ns in PRIMARY_NS:  # the primary view of a namespace carries the namespace's name
+        VIEW_NS[ns] = (ns, None)
+    VIEWS_USED[:] = [v for v in lg.VIEWS if v in VIEW_NS]
 
 
 def resolve(h: Dict[str, Any], **kw: Any) -> ri.Resolution:
     return ri.resolve(h, CATS, not_applicable=NOT_APPLICABLE, **kw)
 
 
-# view -> (namespace, category filter)
-VIEW_NS: Dict[str, Tuple[str, Optional[Set[str]]]] = {
-    "diag_comms": ("diag_comms", None),
-    "services": ("diag_comms", {"service"}),
-    "diag_services": ("diag_comms", {"service"}),
-    "single_ecu_jobs": ("diag_comms", {"job"}),
-    "dops": ("dops", None),
-}
-for _ns in PRIMARY_NS:
-    if _ns not in ("diag_comms", "dops"):
-        VIEW_NS[_ns] = (_ns, None)
-VIEW_NS["dops"] = ("dops", None)
-VIEWS_USED = [v for v in lg.VIEWS if v in VIEW_NS]
-
 PARENT_KIND_PAIRS = ["FUNCTIONAL-GROUP-vs-PROTOCOL", "BASE-VARIANT-vs-PROTOCOL",
                      "BASE-VARIANT-vs-FUNCTIONAL-GROUP", "ECU-SHARED-DATA-vs-PROTOCOL",
                      "ECU-SHARED-DATA-vs-FUNCTIONAL-GROUP", "ECU-SHARED-DATA-vs-BASE-VARIANT"]
 REQUIRED_REL = ["local-only", "local-overrides", "single-parent", "same-object-multi-path",
-                "priority", "clash"]
+                "priority", "clash", "clash-settled-by-local", "clash-settled-by-higher-priority"]
 
 
 # ---------------------------------------------------------------------------
@@ -230,7 +253,7 @@ def _observe(db: Any, h: Dict[str, Any]) -> Dict[str, Dict[str, Any]]:
             try:
                 o[v] = lg.read_view(lo, v)
             except lg.ViewUnavailable as e:
-                if v == "diag_variables" and l["kind"] == "PROTOCOL":
+                if v in NOT_APPLICABLE.get(l["kind"], ()):
                     o[v] = None
                     continue
                 o[v] = None
@@ -273,9 +296,19 @@ def judge(col: common.Collector, h: Dict[str, Any], isolation: str = "one",
             col.count("twin-clash:raised")
             col.count("twin-clash-raised-as:" + type(exc).__name__)
             return
-        col.violation(("load-raises-without-clash", type(exc).__name__), detail(
-            problem=f"{type(exc).__name__}: {exc}"[:600]))
+        # which would-be clashes does the rule settle in this database?
+        how = set(x[3] for x in res.settled)
+        if len(resolve(h, ignore_exclusions=True).hard_clashes) > 0:
+            how.add("exclusion")
+        col.violation(("load-raises-without-clash", type(exc).__name__,
+                       "settled-by:" + ("+".join(sorted(how)) or "nothing")), detail(
+            problem=f"{type(exc).__name__}: {exc}"[:600], settled=res.settled[:10]))
         return
+    for x in res.settled:
+        col.count(f"cell:{x[1]}:clash-settled-by-{x[3]}")
+        col.count(f"clash-settled-by:{x[3]}")
+    if res.settled:
+        col.ev()
     if res.twin_clashes:
         col.count("twin-clash:loaded")
 
@@ -458,7 +491,8 @@ def judge_isolation(col: common.Collector, h: Dict[str, Any], obs: Dict[str, Dic
 
 
 def part(task: Tuple, col: common.Collector) -> None:
-    kind, worker, payload, isolation = task
+    kind, worker, payload, isolation, with_vg = task
+    configure(with_vg)
     r = common.rng(worker, "c09/" + kind)
     if kind == "shapes":
         for shape, reps in payload:
@@ -512,6 +546,16 @@ def hand_made() -> List[Dict[str, Any]]:
 
 
 def run(tier: str, col: common.Collector) -> None:
+    exc = probe_variable_groups()
+    col.ev()
+    if exc is not None:
+        col.violation(("category-unloadable", "variable_groups", type(exc).__name__), {
+            "hier": probe_hier(), "probe": "variable-group",
+            "problem": f"a layer holding one VARIABLE-GROUP cannot be loaded: "
+                       f"{type(exc).__name__}: {exc}"[:400]})
+    configure(exc is None)
+    with_vg = exc is None
+    col.notes["variable_groups_in_alphabet"] = with_vg
     for h in hand_made():
         judge(col, h, "all")
         col.count("databases:hand-made")
@@ -519,15 +563,15 @@ def run(tier: str, col: common.Collector) -> None:
     small = [s for n in (1, 2, 3) for s in lg.shapes(n)]
     four = list(lg.shapes(4))
     if tier == "quick":
-        work = [(s, 5) for s in small] + [(s, 2) for s in four]
-        nrand, iso = 80, "one"
+        work = [(s, 2) for s in small] + [(s, 1) for s in four]
+        nrand, iso = 45, "one"
     else:
         work = [(s, 60) for s in small] + [(s, 40) for s in four]
         nrand, iso = 4000, "all"
     r.shuffle(work)
     n = common.NCPU * 4
-    tasks: List[Tuple] = [("shapes", i, work[i::n], iso) for i in range(n)]
-    tasks += [("random", 1000 + i, nrand, iso) for i in range(n)]
+    tasks: List[Tuple] = [("shapes", i, work[i::n], iso, with_vg) for i in range(n)]
+    tasks += [("random", 1000 + i, nrand, iso, with_vg) for i in range(n)]
     common.pmap(part, tasks, col)
     col.notes["shapes_enumerated"] = {"<=3 layers": len(small), "4 layers": len(four)}
     col.notes["exhaustive_scope"] = "all hierarchy shapes with <= 4 layers (parent subsets x kinds)"
@@ -560,4 +604,13 @@ def run(tier: str, col: common.Collector) -> None:
 
 
 def replay(w: Dict[str, Any], col: common.Collector) -> None:
+    if w.get("probe") == "variable-group":
+        exc = probe_variable_groups()
+        col.ev()
+        if exc is not None:
+            col.violation(("category-unloadable", "variable_groups", type(exc).__name__),
+                          {"hier": probe_hier(), "probe": "variable-group", "problem": str(exc)})
+        return
+    uses_vg = any(o["cat"] == "variable_group" for l in w["hier"]["layers"] for o in l["objects"])
+    configure(True if uses_vg else None)
     judge(col, w["hier"], "all")
